@@ -1,8 +1,51 @@
 import DepsDev.Drive.Loop
+import DepsDev.Model.Resolve.Lru
 open DepsDev
 
-/-- Stub: replaced by the property's builder. -/
+/-! Driver of C05. The tie of this property is NOT a model-vs-code output diff
+(`"model_driver": false` in props/C05.json): the Lean side consists of theorems, tied to the
+code by the regenerated translator facts and by the history / permutation / concurrency replay
+oracle of harness/cmd/c05. The driver only offers the LRU model for manual exploration:
+
+    C05 lru <cap> a<k>=<v> g<k> ...     ->  ok <get results, - for a miss> | <recency list>
+
+`history` and `race` ops have no model counterpart and answer `not-modelled`. -/
+
+def parseNat? (s : String) : Option Nat := s.toNat?
+
+def runLru : Resolve.Lru.Cache Nat Nat → List String → List String → Option (List String × Resolve.Lru.Cache Nat Nat)
+  | c, [], acc => some (acc.reverse, c)
+  | c, op :: rest, acc =>
+    if op.startsWith "a" then
+      match (op.drop 1).toString.splitOn "=" with
+      | [k, v] =>
+        match parseNat? k, parseNat? v with
+        | some k, some v =>
+          match Resolve.Lru.add c k v with
+          | none => none
+          | some c' => runLru c' rest acc
+        | _, _ => none
+      | _ => none
+    else if op.startsWith "g" then
+      match parseNat? (op.drop 1).toString with
+      | some k =>
+        let (r, c') := Resolve.Lru.get c k
+        runLru c' rest ((match r with | some v => toString v | none => "-") :: acc)
+      | none => none
+    else none
+
 def handleC05 : List String → String
+  | "lru" :: cap :: ops =>
+    match parseNat? cap with
+    | none => "bad-op"
+    | some n =>
+      match runLru (Resolve.Lru.new n) ops [] with
+      | none => "panic"
+      | some (rs, c) =>
+        "ok " ++ " ".intercalate rs ++ " | " ++
+          " ".intercalate (c.entries.map fun e => toString e.1 ++ "=" ++ toString e.2)
+  | "history" :: _ => "not-modelled"
+  | "race" :: _ => "not-modelled"
   | _ => "bad-op"
 
 def main : IO Unit := Drive.runDriver "C05" handleC05
